@@ -174,10 +174,34 @@ def rule_fwd_config(ctx: Ctx) -> RuleResult:
         res.violation([gpc.qualname, "PathConfig construction"], "get_path_config does not build PathConfig(name, <module>)", gpc.relpath,
                       gpc.node.lineno)
     res.floor(n, 16, "path-configuration forwarding sites")
+    _default_config_choice(ctx, res)
     return res
 
 
 # ------------------------------------------------------------------------------------------------
+def _default_config_choice(ctx: Ctx, res: RuleResult):
+    """no name given: the configured default path configuration, else the first configured one - in this order"""
+    f = ctx.p.function("spil.sid.pathops.pathconfig.get_path_config")
+    from ..shape import facts_at
+
+    name_p = f.params[0]
+    hits = 0
+    for st in own_nodes(f.node):
+        if not (isinstance(st, ast.Assign) and len(st.targets) == 1 and norm(st.targets[0]) == name_p):
+            continue
+        hits += 1
+        v = st.value
+        good = isinstance(v, ast.BoolOp) and isinstance(v.op, ast.Or) and "default_path_config" in norm(v.values[0]) and (name_p, False) in facts_at(ctx, f, st)
+        if good:
+            res.ok("get_path_config default", "only when no name is given: conf.default_path_config, else the first configured one")
+        else:
+            res.violation([f.qualname, "default choice"], f"get_path_config: `{norm(st)[:80]}` is not `default_path_config or <first configured>` under "
+                                                          f"'no name given': the default configuration is ignored or a given name is replaced",
+                          f.relpath, st.lineno)
+    if hits == 0:
+        res.note("get_path_config default", "no re-binding of the name: the given name is used as it is")
+
+
 def rule_fwd_chain(ctx: Ctx) -> RuleResult:
     """attributes / sid_encode are handed unchanged down the Getter chains"""
     res = RuleResult("R-FWD")
@@ -219,4 +243,67 @@ def rule_fwd_chain(ctx: Ctx) -> RuleResult:
                                               f"{m.short} passes `{norm(bound[par])}` as `{par}` to {t.name} instead of its own `{par}`",
                                               m.relpath, cs.lineno, site=site)
     res.floor(n, 10, "attributes / sid_encode forwarding sites")
+    return res
+
+
+def _handed_out(m: FunctionInfo, flow, call: ast.Call) -> bool:
+    """the results of the call leave the method as they are: `yield from call`, `return call`, or through a local that is only
+    yielded from / returned"""
+    parents = {}
+    for x in ast.walk(m.node):
+        for ch in ast.iter_child_nodes(x):
+            parents[id(ch)] = x
+    par = parents.get(id(call))
+    if isinstance(par, (ast.YieldFrom, ast.Return)):
+        return True
+    if isinstance(par, ast.Assign) and len(par.targets) == 1 and isinstance(par.targets[0], ast.Name):
+        nm = par.targets[0].id
+        uses = [x for x in own_nodes(m.node) if isinstance(x, ast.Name) and x.id == nm and isinstance(x.ctx, ast.Load)]
+        return bool(uses) and all(isinstance(parents.get(id(u)), (ast.YieldFrom, ast.Return)) for u in uses)
+    return False
+
+
+def rule_fwd_assid(ctx: Ctx) -> RuleResult:
+    """a Finder method that is asked for Sids or for strings (as_sid) asks the Finder methods it delegates to for the same:
+    the flag is handed on (or chosen explicitly with a literal), never left to the callee's default"""
+    res = RuleResult("R-FWD")
+    p = ctx.p
+    n = 0
+    fam = [c for c in p.classes.values() if c.module.kind == "library" and c.module.name != "spil.sid.read.finders.find_cache" and any(
+        k.qualname in ("spil.sid.read.finder.Finder", "spil.sid.read.getter.Getter") for k in p.mro(c))]
+    res.floor(len(fam), 6, "Finder / Getter classes")
+    for c in fam:
+        for m in c.methods.values():
+            if "as_sid" not in m.params:
+                continue
+            flow = flow_of(m.node)
+            for cs in ctx.cg.sites.get(m.qualname, []):
+                if not isinstance(cs.node, ast.Call):
+                    continue
+                ts = [t for t in cs.targets if t.cls is not None and "as_sid" in t.params and any(
+                    k.qualname in ("spil.sid.read.finder.Finder", "spil.sid.read.getter.Getter") for k in p.mro(t.cls))]
+                if not ts:
+                    continue
+                t = ts[0]
+                bound = dict(bind_args(t, cs.node))
+                n += 1
+                site = f"{m.qualname} -> {t.short}(as_sid)"
+                if "as_sid" not in bound and not _handed_out(m, flow, cs.node):
+                    res.ok(site, "results are consumed here (as the callee's default gives them), not handed out")
+                    continue
+                if "as_sid" not in bound:
+                    res.violation([m.qualname, t.name, "as_sid", "omitted"],
+                                  f"{m.short} calls {t.name} without `as_sid`: the callee's default decides whether Sids or strings come back, "
+                                  f"whatever the caller was asked for", m.relpath, cs.lineno, site=site)
+                    continue
+                v = bound["as_sid"]
+                at = flow.node_of(cs.node)
+                if isinstance(v, ast.Constant):
+                    res.ok(site, f"explicit as_sid={v.value!r} (the caller converts the results itself)")
+                elif any(a.kind == "param" and a.text == "as_sid" for a in flow.depends(v, at.id if at else None)):
+                    res.ok(site, "forwarded")
+                else:
+                    res.violation([m.qualname, t.name, "as_sid", "altered"], f"{m.short} passes `{norm(v)}` as `as_sid` to {t.name}", m.relpath,
+                                  cs.lineno, site=site)
+    res.floor(n, 6, "as_sid forwarding sites")
     return res
